@@ -44,7 +44,10 @@ func (c17) Assumptions() []string {
 
 var c17Kinds = []string{"record", "annotate", "stage", "apply"}
 
-func (c17) Generate(r *core.Rand, tier string, idx uint64) *core.Case {
+func (d c17) Generate(r *core.Rand, tier string, idx uint64) *core.Case {
+	if c17IsGitCase(idx) {
+		return d.generateGit(r, tier, idx)
+	}
 	c := &core.Case{Property: "C17", Engine: "simstore", Config: map[string]int{}, Flags: map[string]bool{}}
 	b := &opBuilder{}
 	withPolicy := r.Chance(0.6)
@@ -161,6 +164,9 @@ type logOutput struct {
 }
 
 func (d c17) Execute(c *core.Case) *core.Result {
+	if c.Engine == "git" {
+		return d.executeGit(c)
+	}
 	res := &core.Result{}
 	np := c.Config["prefix"]
 	if np > len(c.Ops) {
